@@ -368,7 +368,7 @@ def _ownership(ctx, prog, A):
             continue
         if a.kind == 'r' and a.heap_struct not in written_structs:
             continue        # struct type never written through a pointer anywhere: immutable tables
-        cand.setdefault((a.fn.qname, id(a.ins)), a)
+        cand.setdefault((a.fn.qname, id(a.ins), a.kind if a.ins.op == 'call' else ''), a)
     n = 0
     per_fn = defaultdict(list)
     for a in cand.values():
@@ -379,7 +379,10 @@ def _ownership(ctx, prog, A):
         pubs = _publications(prog, A, f, P)
         for a in sorted(accs, key=lambda x: (x.ins.line or 0, x.ins.idx)):
             n += 1
-            ptr = a.ins.ops[0] if a.ins.op == 'load' else a.ins.ops[1]
+            if a.ins.op == 'call':
+                ptr = a.ins.ops[0] if a.kind == 'w' else a.ins.ops[1]      # memcpy(dst, src, ...)
+            else:
+                ptr = a.ins.ops[0] if a.ins.op == 'load' else a.ins.ops[1]
             addr = P.addr(ptr)
             base = addr[1][1] if addr[1][0] == 'V' else None
             ok, why = _owned(prog, A, f, P, base, a.ins, pubs, set())
